@@ -135,7 +135,12 @@ pub struct Lexer<'lexer> {
   /// otherwise it is returned as `and`. This allows to disambiguate the `and`
   /// operator used in between clause from conjunction.
   /// After consuming first `and` as `band` this flag is cleared by the lexer.
-  between: bool,
+  /// The nesting depth of brackets at every pending `between` keyword is remembered,
+  /// so that only the `and` at the same depth closes the first bound of that `between`
+  /// (`x between (a and b) and c` holds a conjunction inside its first bound).
+  between: Vec<i32>,
+  /// Current nesting depth of parentheses, square brackets and braces.
+  bracket_depth: i32,
   /// ???
   type_name: bool,
   /// ???
@@ -152,7 +157,8 @@ impl<'lexer> Lexer<'lexer> {
       input: input.chars().collect(),
       position: 0,
       unary_tests: false,
-      between: false,
+      between: vec![],
+      bracket_depth: 0,
       type_name: false,
       till_in: false,
     }
@@ -163,7 +169,7 @@ impl<'lexer> Lexer<'lexer> {
   }
 
   pub fn set_between(&mut self) {
-    self.between = true;
+    // the keyword `between` is registered by the lexer itself together with its nesting depth
   }
 
   pub fn set_type_name(&mut self) {
@@ -226,6 +232,7 @@ impl<'lexer> Lexer<'lexer> {
         Ok((TokenType::Instance, TokenValue::Instance))
       }
       ['b', 'e', 't', 'w', 'e', 'e', 'n', WS, _, _, _, _] => {
+        self.between.push(self.bracket_depth);
         self.position += 7;
         Ok((TokenType::Between, TokenValue::Between))
       }
@@ -273,12 +280,12 @@ impl<'lexer> Lexer<'lexer> {
         self.position += 4;
         Ok((TokenType::Boolean, TokenValue::Boolean(true)))
       }
-      ['a', 'n', 'd', WS, _, _, _, _, _, _, _, _] if !self.between => {
+      ['a', 'n', 'd', WS, _, _, _, _, _, _, _, _] if self.between.last() != Some(&self.bracket_depth) => {
         self.position += 3;
         Ok((TokenType::And, TokenValue::And))
       }
-      ['a', 'n', 'd', WS, _, _, _, _, _, _, _, _] if self.between => {
-        self.between = false;
+      ['a', 'n', 'd', WS, _, _, _, _, _, _, _, _] if self.between.last() == Some(&self.bracket_depth) => {
+        self.between.pop();
         self.position += 3;
         Ok((TokenType::BetweenAnd, TokenValue::BetweenAnd))
       }
@@ -376,26 +383,32 @@ impl<'lexer> Lexer<'lexer> {
         Ok((TokenType::Gt, TokenValue::Gt))
       }
       ['(', _, _, _, _, _, _, _, _, _, _, _] => {
+        self.bracket_depth += 1;
         self.position += 1;
         Ok((TokenType::LeftParen, TokenValue::LeftParen))
       }
       [')', _, _, _, _, _, _, _, _, _, _, _] => {
+        self.bracket_depth -= 1;
         self.position += 1;
         Ok((TokenType::RightParen, TokenValue::RightParen))
       }
       ['[', _, _, _, _, _, _, _, _, _, _, _] => {
+        self.bracket_depth += 1;
         self.position += 1;
         Ok((TokenType::LeftBracket, TokenValue::LeftBracket))
       }
       [']', _, _, _, _, _, _, _, _, _, _, _] => {
+        self.bracket_depth -= 1;
         self.position += 1;
         Ok((TokenType::RightBracket, TokenValue::RightBracket))
       }
       ['{', _, _, _, _, _, _, _, _, _, _, _] => {
+        self.bracket_depth += 1;
         self.position += 1;
         Ok((TokenType::LeftBrace, TokenValue::LeftBrace))
       }
       ['}', _, _, _, _, _, _, _, _, _, _, _] => {
+        self.bracket_depth -= 1;
         self.position += 1;
         Ok((TokenType::RightBrace, TokenValue::RightBrace))
       }
